@@ -66,6 +66,8 @@ inductive Plain (β : Type) where
   | define (n : String) (body : β)            -- #define n body
   | undef (n : String) (extra : Bool)         -- #undef n  [extra tokens]
   | error                                     -- #error …
+  | bad                                       -- a directive preprocess2 rejects when it reaches it: unknown name,
+                                              -- #undef / #define without a macro name ("invalid preprocessor directive", "macro name must be an identifier")
   | other                                     -- null directive, #pragma (not once), #line: no effect here
   deriving DecidableEq, Repr
 
@@ -74,6 +76,7 @@ inductive IfHead (ε : Type) where
   | ifE (c : ε)                               -- #if c
   | ifdef (n : String) (extra : Bool)         -- #ifdef n [extra tokens]
   | ifndef (n : String) (extra : Bool)        -- #ifndef n [extra tokens]
+  | noName                                    -- #ifdef / #ifndef not followed by an identifier on the same line
   deriving DecidableEq, Repr
 
 /-- the two directives that continue an if-section -/
@@ -180,6 +183,7 @@ def procPlain (p : Plain β) (o : Obs β) : Except Diag (Obs β) :=
   | .define n b => .ok { o with defs := o.defs.define n b }      -- read_macro_definition → add_macro
   | .undef n _ => .ok { o with defs := o.defs.undef n }          -- undef_macro; skip_line
   | .error => .error .errorDirective                            -- error_tok(tok, "error")
+  | .bad => .error .badDirective
   | .other => .ok o
 
 /-- the value of the controlling condition of #if / #ifdef / #ifndef -/
@@ -188,6 +192,7 @@ def evalHead (ev : ε → Defs β → Except Diag Bool) (h : IfHead ε) (d : Def
   | .ifE c => ev c d
   | .ifdef n _ => .ok (d.isDef n)                                -- find_macro(tok->next)
   | .ifndef n _ => .ok (!d.isDef n)
+  | .noName => .error .badDirective                             -- "macro name must be an identifier"
 
 /-- One directive (or text line) handled by `preprocess2`'s own loop.  Returns the new state and
     where control continues: `proc` (next line), or `skip 0` (the arm called `skip_cond_incl`). -/
